@@ -562,6 +562,13 @@ def _sync_job_workspaces(
                 copytree(fn_src, fn_dst)
         else:
             logger.warning(f"Skip directory '{fn_src}'.")
+    for fn in diff.common_funny:
+        # A file on one side and a directory on the other (or an entry that
+        # cannot be examined): neither can replace the other.
+        if exclude and any([re.match(p, fn) for p in exclude]):
+            logger.debug(f"File named '{fn}' is skipped (excluded).")
+            continue
+        raise FileSyncConflict(os.path.join(subdir, fn))
     for fn in diff.diff_files:
         if exclude and any([re.match(p, fn) for p in exclude]):
             logger.debug(f"File named '{fn}' is skipped (excluded).")
